@@ -4,7 +4,13 @@
 :- use_module(library(dif)).
 :- use_module(library(freeze)).
 :- use_module(library(iso_ext)).
+:- use_module(library(assoc)).
+:- use_module(library(charsio)).
+:- use_module(library(format)).
+:- use_module(library(dcgs)).
+:- use_module(library(pairs)).
 :- dynamic(lg/1).
+:- dynamic(w_fact/2).
 
 vh_count(N, N) :- !.
 vh_count(I, N) :- I < N, I1 is I + 1, vh_count(I1, N).
@@ -13,3 +19,131 @@ vh_nat(0).
 vh_nat(N) :- vh_nat(M), N is M + 1.
 
 vh_throw_after(L, K) :- member(X, L), ( X == K -> throw(reached(K)) ; true ).
+
+% ---------------------------------------------------------------------------
+% workload library W (no catch-all inside; every workload is deterministic)
+% ---------------------------------------------------------------------------
+
+w_list(N, R) :- numlist(1, N, L), reverse(L, L1), append(L, L1, L2), sum_list(L2, S), length(L2, Len), R = S-Len.
+
+w_copy(N, R) :-
+    length(Vs, N), T = t(Vs, "a string shared", f(Vs, g(X, X, Y), Y), [a-Vs|Vs]),
+    copy_term(T, C), C = t(Ws, S, _, _), length(Ws, Len), length(S, SL), R = Len-SL.
+
+w_findall(N, R) :-
+    findall(X-L, (between(1, N, X), findall(Y, between(1, X, Y), L)), Ps),
+    length(Ps, Len), w_last(Ps, _-LL), length(LL, R0), R = Len-R0.
+
+w_bagof(N, R) :-
+    numlist(1, N, L),
+    bagof(K-Xs, bagof(X, (member(X, L), K is X mod 3), Xs), Groups),
+    setof(M, X^(member(X, L), M is X mod 5), Ms),
+    length(Groups, G), R = G-Ms.
+
+w_assert(N, R) :-
+    retractall(w_fact(_, _)),
+    ( between(1, N, I), assertz(w_fact(I, f(I, "s", [I]))), fail ; true ),
+    findall(I, w_fact(I, _), Is), length(Is, Len),
+    ( retract(w_fact(1, _)) -> true ; true ),
+    findall(I, w_fact(I, _), Js), length(Js, Len2),
+    retractall(w_fact(_, _)),
+    R = Len-Len2.
+
+w_atoms(N, R) :-
+    numlist(1, N, L),
+    once(w_atoms_(L, 0, R)).
+w_atoms_([], A, A).
+w_atoms_([I|Is], A0, A) :-
+    number_codes(I, Cs), atom_codes(At, [0'p, 0'r, 0'e, 0'f, 0'i, 0'x, 0'_|Cs]),
+    atom_concat(At, '_suffix', At2), atom_length(At2, Len), atom_chars(At2, Chs),
+    length(Chs, Len), sub_atom(At2, 0, 3, _, Sub), atom_length(Sub, L3),
+    A1 is A0 + Len + L3, w_atoms_(Is, A1, A).
+
+w_pstr(N, R) :-
+    length(Xs, N), maplist(=(0'x), Xs), atom_codes(A, Xs), atom_chars(A, S0),
+    append("prefix of a partial string ", S0, S1), append(S1, " and a suffix", S2),
+    phrase(w_count_x(0, C), S2), length(S2, Len), R = C-Len.
+w_count_x(C0, C) --> [Ch], !, { Ch == x -> C1 is C0 + 1 ; C1 = C0 }, w_count_x(C1, C).
+w_count_x(C, C) --> [].
+
+w_bignum(N, R) :- w_fact_(N, 1, F), R0 is F mod 1000007, G is gcd(F, 2^70 + 1), Q is F // (2^64), S is sign(Q), R = R0-G-S.
+w_fact_(0, A, A) :- !.
+w_fact_(N, A0, A) :- A1 is A0 * N, N1 is N - 1, w_fact_(N1, A1, A).
+
+w_read(N, R) :-
+    numlist(1, N, L),
+    write_term_to_chars(foo(L, "text", 'Quoted atom', X, Y, X, 1.5, -3), [quoted(true)], Cs0),
+    append(Cs0, ".", Cs), read_from_chars(Cs, T), T = foo(L2, S, _, _, _, _, F, _),
+    length(L2, Len), length(S, SL), R = Len-SL-F.
+
+w_write(N, R) :-
+    numlist(1, N, L),
+    phrase(format_("~w and ~a and ~d and ~q~n", [L, abc, 42, 'A b']), Cs1),
+    number_chars(123456789012345678901234567890, Cs2),
+    write_term_to_chars(g(L, Cs2), [], Cs3),
+    length(Cs1, L1), length(Cs3, L3), R = L1-L3.
+
+w_sort(N, R) :-
+    numlist(1, N, L), maplist(w_key, L, Ps), keysort(Ps, Sorted), pairs_values(Sorted, Vs),
+    sort(Vs, S1), reverse(S1, S2), length(S1, L1), length(S2, L2), Sorted = [K-_|_], R = K-L1-L2.
+w_key(I, K-I) :- K is (I * 7919) mod 13.
+
+w_catch(N, R) :-
+    numlist(1, N, L),
+    catch(w_thrower(L), big(L2, S), (length(L2, Len), length(S, SL), R = Len-SL)).
+w_thrower(L) :- length(L, N), N >= 0, throw(big(L, "ball string")).
+
+w_scc(N, R) :-
+    numlist(1, N, L),
+    findall(X, setup_call_cleanup(true, member(X, L), true), Xs),
+    setup_call_cleanup(G = 1, once(member(_, L)), H = 2),
+    length(Xs, Len), R = Len-G-H.
+
+w_dif(N, R) :- once(w_dif_(N, R)).
+w_dif_(N, R) :-
+    length(Vs, N), w_dif_chain(Vs), maplist(w_freeze(Log), Vs),
+    numlist(1, N, Vs), once(w_log_len(Log, R)).
+w_last([X], X) :- !.
+w_last([_|T], X) :- w_last(T, X).
+
+w_dif_chain([]).
+w_dif_chain([_]).
+w_dif_chain([A,B|T]) :- dif(A, B), w_dif_chain([B|T]).
+w_freeze(Log, V) :- freeze(V, w_log(Log, V)).
+w_log(Log, V) :- var(Log), !, Log = [V|_].
+w_log([_|T], V) :- w_log(T, V).
+w_log_len(L, 0) :- var(L), !.
+w_log_len([_|T], N) :- w_log_len(T, N0), N is N0 + 1.
+
+w_assoc(N, R) :-
+    numlist(1, N, L), empty_assoc(A0), foldl(w_put, L, A0, A),
+    assoc_to_keys(A, Ks), length(Ks, Len), get_assoc(1, A, V), R = Len-V.
+w_put(I, A0, A) :- K is (I * 31) mod 17, put_assoc(K, A0, v(I), A1), put_assoc(I, A1, w(I), A).
+
+w_unify(N, R) :-
+    length(As, N), length(Bs, N), T1 = f(As, g(Bs), "str", Z), T2 = f(Bs, g(As), S, S),
+    T1 = T2, As = [first|_], w_last(Bs, last), length(Z, ZL), R = ZL.
+
+w_arith(N, R) :- w_arith_(N, 0, 1 rdiv 3, R).
+w_arith_(0, F, Q, F-Q) :- !.
+w_arith_(N, F0, Q0, R) :-
+    F1 is F0 + sqrt(N) * 1.5 - N / 7, Q1 is Q0 + 1 rdiv N, N1 is N - 1, w_arith_(N1, F1, Q1, R).
+
+w_cwil(N, R) :-
+    call_with_inference_limit(w_list(N, R0), 1000000, R1),
+    once(call_with_inference_limit(vh_nat(_), 30, R2)),
+    R = R0-R1-R2.
+
+w_backtrack(N, R) :-
+    numlist(1, N, L),
+    findall(X-Y, (member(X, L), member(Y, L), X < Y, Y - X =:= 2), Ps),
+    ( member(A, L), A > 3 -> true ; A = none ),
+    \+ member(zzz, L),
+    forall(member(Q, L), integer(Q)),
+    length(Ps, Len), R = Len-A.
+
+w_chars(N, R) :-
+    numlist(1, N, L),
+    maplist(w_num_chars, L, Css), append(Css, All), length(All, Len),
+    atom_chars(A, All), atom_length(A, AL), number_chars(Num, "12345"), R = Len-AL-Num.
+w_num_chars(I, Cs) :- number_chars(I, Cs).
